@@ -24,7 +24,7 @@ ANCHORS = sched.LineAnchors([
     ('provider/subscriptionmgr_base.py', '*'),
     ('provider/subscriptionmgr.py', '*'),
     ('provider/subscriptionmgr_async.py', '*'),
-])
+], opcode_level=[('provider/subscriptionmgr_base.py', 'renew')])
 REQUESTS = {'renew5': ('renew', 5), 'renew99': ('renew', 99), 'status': ('status', None)}
 OTHERS = {'report': ('W',), 'housekeeping': ('H',), 'report+housekeeping': ('W', 'H')}
 SUBSCRIBED_FOR = 11
